@@ -11,6 +11,7 @@ package rules
 //   C11.fromto  _query_fromtostring: parse, move directives out, f once, restore, print
 //   C11.wrap    _eval_query_rewrite: try((user)) catch c, input | . , . | output, slurp plumbing, stage order
 //   C11.closed  wrapper queries handed to eval are built from a closed set of capture-free term constructors
+//   C11.repl    _repl is fed one array and iterates it; slurp functions evaluate .rewrite / .slurp_args[k] only
 //   C11.inputs  the plain and the --repl evaluation of the command-line program get the same input expression for every option combination
 //
 // Not decided: the printer (*gojq.Query).String itself.
@@ -55,6 +56,7 @@ func runC11(r *fw.Run, p *fw.Program) {
 	c.wrap()
 	c.closed()
 	c.inputs()
+	c.repl()
 	r.Assumption("(*gojq.Query).String (the printer of the gojq fork) parenthesises nothing by itself and prints what the AST says; its correctness for every precedence combination is not decided")
 }
 
@@ -502,280 +504,7 @@ func c11Go(r *fw.Run, p *fw.Program) {
 	ru.Ok("registered:_query_fromstring", p.Rel(from.Pos()), fw.ShortFn(from))
 	ru.Ok("registered:_query_tostring", p.Rel(to.Pos()), fw.ShortFn(to))
 
-	calleeIs := func(c *ssa.Call, path, recv, name string) bool {
-		f := c.Common().StaticCallee()
-		if f == nil || f.Name() != name {
-			return false
-		}
-		if f.Pkg == nil || f.Pkg.Pkg.Path() != path {
-			return false
-		}
-		sigRecv := f.Signature.Recv()
-		if recv == "" {
-			return sigRecv == nil
-		}
-		if sigRecv == nil {
-			return false
-		}
-		t := sigRecv.Type()
-		if pt, ok := t.(*types.Pointer); ok {
-			t = pt.Elem()
-		}
-		n, ok := t.(*types.Named)
-		return ok && n.Obj().Name() == recv
-	}
-	find := func(fn *ssa.Function, path, recv, name string) []*ssa.Call {
-		var out []*ssa.Call
-		for _, ci := range fw.CallsIn(fn) {
-			if c, ok := ci.(*ssa.Call); ok && calleeIs(c, path, recv, name) {
-				out = append(out, c)
-			}
-		}
-		return out
-	}
-	one := func(fn *ssa.Function, who, path, recv, name string) *ssa.Call {
-		cs := find(fn, path, recv, name)
-		if path == "encoding/json" && name == "Marshal" {
-			// MarshalIndent differs only in insignificant whitespace
-			cs = append(cs, find(fn, path, recv, "MarshalIndent")...)
-		}
-		key := who + ":call:" + name
-		if len(cs) != 1 {
-			ru.Fail(key, p.Rel(fn.Pos()), fmt.Sprintf("%s must call %s.%s exactly once (found %d)", who, path, name, len(cs)))
-			return nil
-		}
-		return cs[0]
-	}
-	unwrapIface := func(v ssa.Value) ssa.Value {
-		for {
-			switch x := v.(type) {
-			case *ssa.MakeInterface:
-				v = x.X
-			case *ssa.ChangeInterface:
-				v = x.X
-			case *ssa.ChangeType:
-				v = x.X
-			default:
-				return v
-			}
-		}
-	}
-	extract := func(c *ssa.Call, idx int) *ssa.Extract {
-		for _, ref := range *c.Referrers() {
-			if e, ok := ref.(*ssa.Extract); ok && e.Index == idx {
-				return e
-			}
-		}
-		return nil
-	}
-	// errGuarded: ins executes only when the error result #idx of call c was tested nil.
-	errGuarded := func(ins ssa.Instruction, c *ssa.Call, idx int) bool {
-		var errv ssa.Value
-		if idx < 0 {
-			errv = c
-		} else if e := extract(c, idx); e != nil {
-			errv = e
-		} else {
-			return false
-		}
-		for _, g := range fw.Guards(ins.Block()) {
-			g = g.Normalize()
-			bo, ok := g.Cond.(*ssa.BinOp)
-			if !ok {
-				continue
-			}
-			var other ssa.Value
-			if c11IsNil(bo.X) {
-				other = bo.Y
-			} else if c11IsNil(bo.Y) {
-				other = bo.X
-			} else {
-				continue
-			}
-			if other != errv {
-				continue
-			}
-			if (bo.Op.String() == "==" && g.True) || (bo.Op.String() == "!=" && !g.True) {
-				return true
-			}
-		}
-		return false
-	}
-	param := func(fn *ssa.Function) ssa.Value {
-		// last parameter is the jq input value (receiver first)
-		if len(fn.Params) == 0 {
-			return nil
-		}
-		return fn.Params[len(fn.Params)-1]
-	}
-	// onlyUses: every referrer of v is one of the allowed instructions (or a DebugRef)
-	onlyUses := func(v ssa.Value, allowed ...ssa.Instruction) (ssa.Instruction, bool) {
-		refs := v.Referrers()
-		if refs == nil {
-			return nil, true
-		}
-		for _, ref := range *refs {
-			if _, ok := ref.(*ssa.DebugRef); ok {
-				continue
-			}
-			ok := false
-			for _, a := range allowed {
-				if ref == a {
-					ok = true
-				}
-			}
-			if !ok {
-				return ref, false
-			}
-		}
-		return nil, true
-	}
-
-	// ---- _query_fromstring
-	{
-		fn := from
-		who := "_query_fromstring"
-		parse := one(fn, who, c11GojqPath, "", "Parse")
-		marsh := one(fn, who, "encoding/json", "", "Marshal")
-		unm := one(fn, who, "encoding/json", "", "Unmarshal")
-		if parse != nil && marsh != nil && unm != nil {
-			pos := p.Rel(parse.Pos())
-			ru.Check(len(parse.Call.Args) == 1 && parse.Call.Args[0] == param(fn), who+":parse-arg", pos,
-				"gojq.Parse receives the jq input string itself", "gojq.Parse is not given the unmodified input string: the program parsed is not the program the user wrote")
-			q := extract(parse, 0)
-			ru.Check(q != nil && len(marsh.Call.Args) >= 1 && unwrapIface(marsh.Call.Args[0]) == ssa.Value(q), who+":marshal-arg", p.Rel(marsh.Pos()),
-				"json.Marshal receives the *gojq.Query returned by Parse", "json.Marshal is not given the tree returned by gojq.Parse directly")
-			if q != nil {
-				var allowed []ssa.Instruction
-				for _, ref := range *q.Referrers() {
-					if mi, ok := ref.(*ssa.MakeInterface); ok {
-						if _, only := onlyUses(mi, marsh); only {
-							allowed = append(allowed, mi)
-						}
-					}
-				}
-				bad, ok := onlyUses(q, allowed...)
-				msg := ""
-				if !ok {
-					msg = "the parsed tree is also used by `" + bad.String() + "` before it is serialised (a transformation or mutation between parse and JSON)"
-				}
-				ru.Check(ok, who+":tree-untouched", pos, "parsed tree flows only into json.Marshal", msg)
-			}
-			b := extract(marsh, 0)
-			okb := b != nil && len(unm.Call.Args) == 2 && unm.Call.Args[0] == ssa.Value(b)
-			if okb {
-				_, okb = onlyUses(b, unm)
-			}
-			ru.Check(okb, who+":bytes", p.Rel(unm.Pos()), "json.Unmarshal receives exactly the bytes of json.Marshal, used nowhere else", "the JSON bytes are altered or replaced between json.Marshal and json.Unmarshal")
-			// destination and returned value
-			var dst *ssa.Alloc
-			if len(unm.Call.Args) == 2 {
-				dst, _ = unwrapIface(unm.Call.Args[1]).(*ssa.Alloc)
-			}
-			okret := false
-			var retIns ssa.Instruction
-			if dst != nil {
-				stores := 0
-				for _, ref := range *dst.Referrers() {
-					if st, ok := ref.(*ssa.Store); ok && st.Addr == ssa.Value(dst) {
-						stores++
-					}
-				}
-				for _, ret := range c11Returns(fn) {
-					if len(ret.Results) != 1 {
-						continue
-					}
-					if ld, ok := ret.Results[0].(*ssa.UnOp); ok && ld.X == ssa.Value(dst) {
-						okret = stores == 0
-						retIns = ret
-					}
-				}
-			}
-			ru.Check(okret, who+":result", p.Rel(fn.Pos()), "returns the value json.Unmarshal decoded, written by nothing else", "the value returned to jq is not exactly what json.Unmarshal decoded from the tree's JSON")
-			if retIns != nil {
-				ru.Check(errGuarded(retIns, parse, 1), who+":err:Parse", pos, "result returned only when Parse succeeded", "the success return is not dominated by a test of gojq.Parse's error")
-				ru.Check(errGuarded(retIns, marsh, 1), who+":err:Marshal", p.Rel(marsh.Pos()), "result returned only when Marshal succeeded", "the success return is not dominated by a test of json.Marshal's error")
-				ru.Check(errGuarded(retIns, unm, -1), who+":err:Unmarshal", p.Rel(unm.Pos()), "result returned only when Unmarshal succeeded", "the success return is not dominated by a test of json.Unmarshal's error")
-			}
-		}
-	}
-	// ---- _query_tostring
-	{
-		fn := to
-		who := "_query_tostring"
-		marsh := one(fn, who, "encoding/json", "", "Marshal")
-		unm := one(fn, who, "encoding/json", "", "Unmarshal")
-		str := one(fn, who, c11GojqPath, "Query", "String")
-		if marsh != nil && unm != nil && str != nil {
-			ru.Check(len(marsh.Call.Args) >= 1 && unwrapIface(marsh.Call.Args[0]) == param(fn), who+":marshal-arg", p.Rel(marsh.Pos()),
-				"json.Marshal receives the jq input value itself", "json.Marshal is not given the unmodified jq value")
-			b := extract(marsh, 0)
-			okb := b != nil && len(unm.Call.Args) == 2 && unm.Call.Args[0] == ssa.Value(b)
-			if okb {
-				_, okb = onlyUses(b, unm)
-			}
-			ru.Check(okb, who+":bytes", p.Rel(unm.Pos()), "json.Unmarshal receives exactly the bytes of json.Marshal, used nowhere else", "the JSON bytes are altered or replaced between json.Marshal and json.Unmarshal")
-			var dst *ssa.Alloc
-			if len(unm.Call.Args) == 2 {
-				dst, _ = unwrapIface(unm.Call.Args[1]).(*ssa.Alloc)
-			}
-			okq := dst != nil && len(str.Call.Args) == 1 && str.Call.Args[0] == ssa.Value(dst)
-			if okq {
-				named, _ := dst.Type().(*types.Pointer).Elem().(*types.Named)
-				okq = named != nil && named.Obj().Name() == "Query" && named.Obj().Pkg().Path() == c11GojqPath
-			}
-			msg := "the query printed is not the gojq.Query that json.Unmarshal filled"
-			if okq {
-				// the Query is touched by nothing but Unmarshal (through an interface) and String
-				var allowed []ssa.Instruction
-				allowed = append(allowed, str)
-				for _, ref := range *dst.Referrers() {
-					if mi, ok := ref.(*ssa.MakeInterface); ok {
-						if _, only := onlyUses(mi, unm); only {
-							allowed = append(allowed, mi)
-						}
-					}
-				}
-				if bad, ok := onlyUses(dst, allowed...); !ok {
-					okq = false
-					msg = "the rebuilt gojq.Query is also used by `" + bad.String() + "` (a transformation between decode and print)"
-				}
-			}
-			ru.Check(okq, who+":tree-untouched", p.Rel(str.Pos()), "String() is called on the Query json.Unmarshal filled; nothing else touches it", msg)
-			// returned value is exactly the call result
-			okret := false
-			var retIns ssa.Instruction
-			if res := c11ResultCell(fn); res != nil {
-				// named result kept in a cell (captured by a deferred closure): the normal path stores
-				// exactly String() into it and returns; every other write is judged below
-				okret, retIns = c11ToStringCell(ru, p, fn, who, res, str, unwrapIface)
-			} else {
-				for _, ret := range c11Returns(fn) {
-					if len(ret.Results) == 1 && unwrapIface(ret.Results[0]) == ssa.Value(str) {
-						okret = true
-						retIns = ret
-					}
-				}
-				if okret {
-					var allowed []ssa.Instruction
-					for _, ref := range *str.Referrers() {
-						if mi, ok := ref.(*ssa.MakeInterface); ok {
-							if _, only := onlyUses(mi, retIns); only {
-								allowed = append(allowed, mi)
-							}
-						}
-					}
-					allowed = append(allowed, retIns)
-					_, okret = onlyUses(str, allowed...)
-				}
-			}
-			ru.Check(okret, who+":result", p.Rel(str.Pos()), "returns exactly (*gojq.Query).String()", "the string returned to jq is not exactly the result of (*gojq.Query).String(): the printed program is post-processed")
-			if retIns != nil {
-				ru.Check(errGuarded(retIns, marsh, 1), who+":err:Marshal", p.Rel(marsh.Pos()), "printed only when Marshal succeeded", "the success return is not dominated by a test of json.Marshal's error")
-				ru.Check(errGuarded(retIns, unm, -1), who+":err:Unmarshal", p.Rel(unm.Pos()), "printed only when Unmarshal succeeded", "the success return is not dominated by a test of json.Unmarshal's error: a tree the decoder rejected half-way would be printed")
-			}
-		}
-	}
+	c11GoBody(ru, p, from, to)
 }
 
 func c11SortedSet(m map[string]bool) []string {
